@@ -62,7 +62,20 @@ _PATH_EVENTS = {
     "tempfile.mkstemp": (0,),
     "tempfile.mkdtemp": (0,),
 }
-_DESTRUCTIVE = {"os.rmdir", "os.remove", "os.utime", "os.chmod", "os.chown", "os.truncate", "os.setxattr", "os.removexattr", "shutil.rmtree", "shutil.copymode", "shutil.copystat"}
+
+
+def definite(ev, extra, existed):
+    """does this recorded call change the disk whatever happens next? (mkdir of an existing folder or an append-mode open
+    of an existing file do not; whether something was written through an open file is decided by the snapshots)"""
+    if ev == "open":
+        return bool((extra & os.O_CREAT and not existed) or (extra & os.O_TRUNC and existed))
+    if ev in ("os.mkdir", "os.symlink", "os.link"):
+        return not existed
+    if ev in ("os.rename", "shutil.move"):
+        return existed if extra == 0 else True
+    if ev in ("tempfile.mkstemp", "tempfile.mkdtemp", "shutil.copyfile", "shutil.copytree"):
+        return True
+    return existed
 
 
 def _norm(p):
@@ -273,7 +286,9 @@ def judge(run, cid, w, frame, cmdline, code, exc, before, after, rec, crashed=Fa
             bad(what, rel, f"flatten/{'source-history' if in_hist else 'outside-destination'}/{what}", f"writes only below the destination {dest}")
     else:
         asc = frame["asc"]
-        created_root_asc = not frame["root_asc_existed"] and os.path.isdir(frame["root_asc"])
+        # the one permitted act outside the ascmhl folders: making the root's ascmhl folder where none existed (it may be
+        # gone again after a failed run that cleaned up); the root's own mtime changes with it by necessity
+        created_root_asc = not frame["root_asc_existed"] and (os.path.isdir(frame["root_asc"]) or any(ev == "os.mkdir" and p == frame["root_asc"] for ev, p, _, _ in rec))
         added_manifests = {}
         for what, rel in changes:
             p = os.path.normpath(os.path.join(w.dir, rel))
@@ -338,9 +353,9 @@ def judge(run, cid, w, frame, cmdline, code, exc, before, after, rec, crashed=Fa
         seen.add(key)
         if ev in ("subprocess.Popen", "os.system", "os.exec", "os.posix_spawn", "os.fork"):
             continue
+        if not definite(ev, extra, existed):
+            continue  # a call that cannot have changed anything by itself (the snapshots decide about writes through it)
         if kind == "ro":
-            if ev == "open" and existed and not (extra & (os.O_TRUNC | os.O_CREAT | os.O_WRONLY | os.O_RDWR | os.O_APPEND)):
-                continue
             run.violation(cid, f"{head} made the modifying call {ev} on {p} (existed before: {existed}); expected none from a read-only command", f"readonly/call/{ev}", inp={"cmd": cmdline, "path": p})
             continue
         if kind == "flatten":
@@ -349,10 +364,10 @@ def judge(run, cid, w, frame, cmdline, code, exc, before, after, rec, crashed=Fa
             ok = os.path.dirname(p) in frame["asc"] or p == frame["root_asc"]
         if ok:
             continue
-        destructive = ev in _DESTRUCTIVE or (ev in ("os.rename", "shutil.move") and extra == 0) or (ev == "open" and bool(extra & os.O_TRUNC))
-        if destructive and existed:
+        # outside the frame a scratch entry that is made and gone again is tolerated for the writing commands
+        if existed:
             run.violation(cid, f"{head} made the modifying call {ev} on the existing path {p}, which is outside what the command may write", f"{kind}/call-outside/{ev}", inp={"cmd": cmdline, "path": p})
-        elif not existed and os.path.lexists(p):
+        elif os.path.lexists(p):
             run.violation(cid, f"{head} created {p} (call {ev}) and left it behind; it is outside what the command may write", f"{kind}/left-outside/{ev}", inp={"cmd": cmdline, "path": p})
     return changes
 
@@ -383,6 +398,7 @@ def act(run, cid, w, name, args, cwd=None, frame=None, key=None, force=None):
         frame = frame_ro()
     if force is None:
         force = frame["kind"] != "ro"
+    cwd = cwd or w.cwd  # never the driver's own cwd: whatever a command drops into its cwd lands inside the observed world
     if not run.want(cid):
         if not force:
             return None
@@ -777,6 +793,7 @@ def run_world(run, wid, tree, nested, hist, fmts, tz, stride, salt):
             arg, cwd = spell(w, how)
         if cwd_over:
             cwd = os.path.join(w.dir, os.path.relpath(cwd_over, base.dir))
+        cwd = cwd or w.cwd
         dest = dest.replace(base.dir, w.dir)
         extra = [a.replace(base.dir, w.dir) for a in extra]
         act(run, cid, w, "flatten", [arg, dest] + extra, cwd=cwd, frame=frame_flatten(dest, cwd), key=("flatten", tree, tuple(nested), hist, op) if nontrivial else None)
@@ -884,7 +901,7 @@ def crash_part(run, rnd):
         cwd = base.dir if sid == "create-names" else None
         # count the events of an undisturbed run on a copy
         probe = base.clone()
-        code0, events = child(name, mk(probe), probe.dir if cwd else None, 0)
+        code0, events = child(name, mk(probe), probe.dir if cwd else probe.cwd, 0)
         shutil.rmtree(probe.dir, ignore_errors=True)
         if not events:
             run.violation(f"crash/{sid}/0", f"undisturbed `{name}` in a subprocess reported no file-system event (exit {code0})", "crash/harness")
@@ -906,7 +923,7 @@ def crash_part(run, rnd):
             fr = frame_create(w.root) if name == "create" else frame_flatten(mk(w)[1], None)
             jobs.append((k, cid, w, fr, W.snapshot(w.dir)))
         with concurrent.futures.ThreadPoolExecutor(max_workers=min(8, os.cpu_count() or 2)) as ex:
-            results = list(ex.map(lambda j: child(name, mk(j[2]), j[2].dir if cwd else None, j[0]), jobs))
+            results = list(ex.map(lambda j: child(name, mk(j[2]), j[2].dir if cwd else j[2].cwd, j[0]), jobs))
         for (k, cid, w, fr, before), (code, ev) in zip(jobs, results):
             after = W.snapshot(w.dir)
             if run.want(cid):
